@@ -3,6 +3,7 @@
 package c03
 
 import (
+	"fmt"
 	"testing"
 
 	"pgregory.net/rapid"
@@ -14,6 +15,7 @@ import (
 )
 
 var profile = gen.Profile{
+	AllowPush: true, PHandlerPush: 25, // on push-enabled servers a quarter of the parking handlers first wait for a callback
 	MinSteps: 4, MaxSteps: 26, Limits: []int{32},
 	PNote: 55, PGate: 75, PInvalid: 6, PUnknown: 6, PBatch: 40, MaxBatch: 4,
 	PCancel: 5, PBurst: 40, PObey: 30, Builtins: true, Pins: true,
@@ -49,7 +51,31 @@ var parts = []engine.AnyPart{
 		Rule: "rapid-generated scripts biased to notifications with parked handlers followed by further records (calls, notifications, batches) while they are parked, with concurrent CancelRequest, a concurrency limit far above the load (the limit itself is the subject of C06), hook delays on barrier/dispatch/invoke sites; safety (exit(notification) < enter(later request)) is checked on the logical clock of the handler log, bounded liveness (all requests of the oldest undispatched record start once no earlier notification is unfinished and a slot is free; a parked call does not hold back later records) at every quiescent point; non-trivial = a notification was parked at a moment when a later record had already been received; distinct = hash of the scenario"},
 }
 
+// stopdrain: the safety half on histories with Stop / peer close / channel
+// faults and restarts, where notifications retained in the queue are still
+// handed to their handlers after the stop - one inbound record at a time.
+func genStop(t *rapid.T) sim.Scenario { return gen.ShutdownScenario(t) }
+
+func runStop(t *testing.T, sc sim.Scenario) engine.Verdict {
+	h := sim.Run(t, sc)
+	if h.BubbleErr != "" {
+		return engine.Verdict{Labels: []string{"other-clause:bubble-error"}} // judged by C08
+	}
+	for _, p := range oracle.BarrierSafety(sc, h) {
+		return engine.Failf(p.Sig, "%s\nscript:\n%s\nhistory:\n%s", p.Msg, oracle.ScriptText(sc), oracle.HistoryText(h))
+	}
+	notes := 0
+	for _, e := range h.Events {
+		if e.Kind == "enter" && e.Note {
+			notes++
+		}
+	}
+	return engine.Verdict{NonTrivial: notes >= 2, Labels: []string{fmt.Sprintf("notifications-run:%d", min(notes, 5))}}
+}
+
 func init() {
+	parts = append(parts, engine.Part[sim.Scenario]{Name: "stopdrain", Run: runStop, Gen: genStop,
+		Rule: "shutdown scripts (traffic with parked notifications and records piling up behind them, Stop / peer close / injected channel faults at any point, records after the stop, restart): on the handler log, every notification that ran had returned before any request of a later inbound record was invoked - also for the notifications that are retained at the stop and drained afterwards; non-trivial = at least two notification handlers ran; distinct = hash of the scenario"})
 	parts = append(parts, engine.Part[sim.Scenario]{Name: "lowlimit", Run: run, Gen: genLow,
 		Rule: "as scenarios, but with Concurrency 1-4 and handlers (of notifications too) that fail, return unmarshalable values or are cancelled before a call stays parked and further requests arrive: below the limit a request of a started record must begin although earlier calls are still running; non-trivial = a notification was parked at a moment when a later record had already been received; distinct = hash of the scenario"})
 }
